@@ -9,7 +9,7 @@ path = 'seeded/CATCH_MATRIX.json'
 out = json.load(open(path)) if os.path.exists(path) else {}
 for n in sorted(os.listdir('seeded')):
     d = 'seeded/' + n
-    if not os.path.isdir(d) or n.startswith('equiv-'):
+    if not os.path.isdir(d) or n.startswith('equiv-') or n.startswith('limit-'):
         continue
     if only and n not in only:
         continue
